@@ -87,6 +87,15 @@ class EscJudge:
                 return e
             if cs is not None and cs.kind == "render-dispatch":
                 return None
+            # rule = self.rules[<kind>]; rule(tokens, idx, options, env): the dispatch through a local
+            if isinstance(fn, ast.Name):
+                ds = self.defs.get(fn.id) or []
+                if ds and all(isinstance(d, ast.Subscript) and isinstance(d.value, ast.Attribute) and d.value.attr == "rules"
+                              and isinstance(d.value.value, ast.Name) and d.value.value.id == "self" for d in ds):
+                    return None
+                if ds and all(isinstance(d, ast.Call) and isinstance(d.func, ast.Attribute) and d.func.attr == "get" and isinstance(d.func.value, ast.Attribute)
+                              and d.func.value.attr == "rules" for d in ds):
+                    return None
             if isinstance(fn, ast.Attribute) and fn.attr == "escape" and U(fn.value) == "html":
                 return None
             # the highlight callback is documented as returning trusted, already escaped HTML
